@@ -100,103 +100,113 @@ Proof. exact entry_point. Qed.
 Print Assumptions C03_entry_point_partial.
 
 (* proved, end to end (lexer, scanner, expander passes, parser, compiler), for programs of labelled
-   instructions: C03_full_statement restricted to programs without EQU, FOR, ;assert, ORG and END, and
-   generalised from the styles of Render.render to every layout.
+   instructions with ORG and END: C03_full_statement restricted to programs without EQU, FOR and ;assert,
+   and generalised from the styles of Render.render to every layout.
 
    The program is a list of abstract instructions (Prog.iline: labels, opcode, optional modifier, operands
    with optional modes, an optional second operand; operand expressions over literals, labels and the
-   predefined constants).  Its surface form is a document (C03Parse): lines, each followed by one or more
-   line ends (the last by any number), preceded by any number of blank lines; a line is a comment or an
-   instruction line: a label section (names, colons and line ends in any order after the first name),
-   the mnemonic in any letter case with or without its modifier, operands with or without their modes,
-   an optional remark.  Names are spelt by any function that keeps the predefined names, spells labels
-   as distinct words that are no mnemonics, and never as "*" (C03Compile.spell_ok).  The text is any
-   sequence of lexemes and white space whose tokens are those of the document (C09GenLex.items_ok: each
-   lexeme is well placed, e.g. a word is not directly followed by a letter).
+   predefined constants), an optional ORG expression, an optional END expression and the labels written on
+   the END line.  Its surface form is a document (C03Parse): lines, each followed by one or more line ends
+   (the last by any number when there is no END line), preceded by any number of blank lines; a line is a
+   comment, an ORG line or an instruction line: a label section (names, colons and line ends in any order
+   after the first name), the mnemonic in any letter case with or without its modifier, operands with or
+   without their modes, an optional remark; the END line, if any, comes last: labels, the keyword, the
+   expression if any, a remark, line ends.  Names are spelt by any function that keeps the predefined names,
+   spells labels as distinct words that are no mnemonics, and never as "*" (C03Compile.spell_ok).  The text
+   is any sequence of lexemes and white space whose tokens are those of the document (C09GenLex.items_ok:
+   each lexeme is well placed, e.g. a word is not directly followed by a letter).
 
-   Then, if the program has a meaning (Meaning.meaning - labels are offsets from the referring
-   instruction, omitted modes and modifiers take the dialect's defaults, a lone operand lands where the
-   dialect prescribes, fields are reduced modulo the core size), the assembler returns exactly that code
-   and entry point, and the metadata of the comment lines. *)
+   Then, if the program has a meaning (Meaning.meaning - labels are offsets from the referring instruction,
+   labels of the END line stand for the address past the code, omitted modes and modifiers take the
+   dialect's defaults, a lone operand lands where the dialect prescribes, fields are reduced modulo the core
+   size, ORG / END select the entry point), the assembler returns exactly that code and entry point, and
+   the metadata of the comment lines.  (With labels on the END line the code must be shorter than the core.) *)
 Theorem C03_labelled_programs_partial :
-  forall cfg spell ils es lead nm au code start its tail,
+  forall cfg spell org pend elabs ils es xo lead nm au code start its tail,
     validate cfg = true ->
-    spell_ok spell (flat_map il_labels ils) ->
-    renders_doc spell ils es -> shape_ok es -> ends_ok es ->
-    meaning (mconf_of cfg) (mkProg (map IInstr ils) None None nm au []) = MOk code start ->
+    spell_ok spell (flat_map il_labels ils ++ elabs) ->
+    renders_doc spell org ils es -> shape_ok es -> line_ends_ok es xo -> renders_tail spell cfg pend elabs (length ils) xo ->
+    match org with Some e => nok e | None => True end ->
+    meaning (mconf_of cfg) (mkProg (map IInstr ils) org pend nm au elabs) = MOk code start ->
     Forall (fun x => is_space_a x = true) tail -> tail <> [] -> items_ok its tail ->
-    flat_map item_toks its ++ newlines tail ++ [tEOF] = ldoc_toks lead es ->
+    flat_map item_toks its ++ newlines tail ++ [tEOF] = doc_tokens lead es xo ->
     compile_warrior cfg (flat_map item_text its ++ tail) = COk code start (dmeta (mkPM [] [] []) es).
-Proof. intros cfg spell ils es lead nm au code start its tail Hv Hsp. exact (labels_text spell cfg ils Hsp es lead nm au code start its tail Hv). Qed.
+Proof. intros cfg spell org pend elabs ils es xo lead nm au code start its tail. exact (program_text spell cfg org pend elabs ils es xo lead nm au code start its tail). Qed.
 Print Assumptions C03_labelled_programs_partial.
 
 (* the same for any text that the lexer turns into the tokens of the document *)
 Theorem C03_labelled_tokens_partial :
-  forall cfg spell ils es lead nm au code start inp,
+  forall cfg spell org pend elabs ils es xo lead nm au code start inp,
     validate cfg = true ->
-    spell_ok spell (flat_map il_labels ils) ->
-    renders_doc spell ils es -> shape_ok es -> ends_ok es ->
-    meaning (mconf_of cfg) (mkProg (map IInstr ils) None None nm au []) = MOk code start ->
-    lex_ascii inp = Some (ldoc_toks lead es) ->
+    spell_ok spell (flat_map il_labels ils ++ elabs) ->
+    renders_doc spell org ils es -> shape_ok es -> line_ends_ok es xo -> renders_tail spell cfg pend elabs (length ils) xo ->
+    match org with Some e => nok e | None => True end ->
+    meaning (mconf_of cfg) (mkProg (map IInstr ils) org pend nm au elabs) = MOk code start ->
+    lex_ascii inp = Some (doc_tokens lead es xo) ->
     compile_warrior cfg inp = COk code start (dmeta (mkPM [] [] []) es).
-Proof. intros cfg spell ils es lead nm au code start inp Hv Hsp. exact (labels_tokens spell cfg ils Hsp es lead nm au code start inp Hv). Qed.
+Proof. intros cfg spell org pend elabs ils es xo lead nm au code start inp. exact (program_tokens spell cfg org pend elabs ils es xo lead nm au code start inp). Qed.
 Print Assumptions C03_labelled_tokens_partial.
 
 (* the hypotheses are satisfiable: a three-line program with a forward and a backward reference, a label
    on its own line with a colon, an omitted mode, an omitted modifier, a lone operand, a remark, a blank
-   line and a name comment *)
+   line, a name comment, an ORG line that uses the label of the END line *)
 Module C03Example.
 Definition spell (id : N) : text :=
   if (id =? 1)%N then s2t "CORESIZE" else if (id =? 2)%N then s2t "MAXLENGTH" else if (id =? 3)%N then s2t "MAXPROCESSES"
-  else if (id =? 4)%N then s2t "MINDISTANCE" else if (id =? 10)%N then s2t "loop" else s2t "tgt".
+  else if (id =? 4)%N then s2t "MINDISTANCE" else if (id =? 10)%N then s2t "loop" else if (id =? 11)%N then s2t "tgt" else s2t "last".
 Definition ils : list Prog.iline :=
   [ mkIL [10%N] MOV None (mkOp None (NName 11)) (Some (mkOp (Some B_INDIRECT) (NName 11)));
     mkIL [] ADD (Some mAB) (mkOp (Some IMMEDIATE) (NLit 4)) (Some (mkOp None (NBin OSub (NName 11) (NLit 1))));
     mkIL [11%N] JMP None (mkOp None (NBin OSub (NName 10) (NName 1))) None ].
+Definition org : nexpr := NBin OSub (NName 12) (NLit 2).
 Definition es : list (lelem * nat) :=
   [ (LComment (s2t ";name demo"), 1%nat);
+    (LDir (s2t "ORG") (etoks spell org) None, 1%nat);
     (LInstr (mkTL [LName (s2t "loop")] (s2t "mov") None (etoks spell (NName 11)) (Some (Some 64%N, etoks spell (NName 11))) None), 2%nat);
     (LInstr (mkTL [] (s2t "Add.aB") (Some 35%N) (etoks spell (NLit 4)) (Some (None, etoks spell (NBin OSub (NName 11) (NLit 1))))
                   (Some (s2t "; step"))), 1%nat);
     (LInstr (mkTL [LName (s2t "tgt"); LColon; LNl] (s2t "JMP") None (etoks spell (NBin OSub (NName 10) (NName 1))) None None), 1%nat) ].
+Definition endl : endline := mkEnd [LName (s2t "last")] (s2t "end") [] None 1.
 Definition source : text :=
-  s2t ";name demo" ++ [10%N] ++ s2t "loop mov tgt, @tgt" ++ [10; 10]%N ++ s2t "  Add.aB #4,tgt - 1 ; step" ++ [10%N]
-  ++ s2t "tgt:" ++ [10%N] ++ s2t "   JMP loop-CORESIZE" ++ [10%N].
+  s2t ";name demo" ++ [10%N] ++ s2t "ORG last-2" ++ [10%N] ++ s2t "loop mov tgt, @tgt" ++ [10; 10]%N ++ s2t "  Add.aB #4,tgt - 1 ; step" ++ [10%N]
+  ++ s2t "tgt:" ++ [10%N] ++ s2t "   JMP loop-CORESIZE" ++ [10%N] ++ s2t "last end" ++ [10%N].
 Definition cfg94 := mkCfg 2 8000 8000 80000 8000 8000 100 100.
 Definition code : list instr :=
   [mkI MOV mI 2 DIRECT 2 B_INDIRECT; mkI ADD mAB 4 IMMEDIATE 0 DIRECT; mkI JMP mB 7998 DIRECT 0 DIRECT].
 
 Example hypotheses_hold :
-  (validate cfg94 = true) /\ spell_ok spell (flat_map il_labels ils) /\ renders_doc spell ils es /\ shape_ok es /\ ends_ok es /\
-  (meaning (mconf_of cfg94) (mkProg (map IInstr ils) None None None None []) = MOk code 0) /\
-  (lex_ascii source = Some (ldoc_toks 0%nat es)).
+  (validate cfg94 = true) /\ spell_ok spell (flat_map il_labels ils ++ [12%N]) /\ renders_doc spell (Some org) ils es /\ shape_ok es /\
+  line_ends_ok es (Some endl) /\ renders_tail spell cfg94 None [12%N] (length ils) (Some endl) /\ nok org /\
+  (meaning (mconf_of cfg94) (mkProg (map IInstr ils) (Some org) None None None [12%N]) = MOk code 1) /\
+  (lex_ascii source = Some (doc_tokens 0%nat es (Some endl))).
 Proof.
   split; [reflexivity|]. split.
   { constructor.
     - repeat split; reflexivity.
-    - intros id Hid. cbn in Hid. destruct Hid as [<-|[<-|[]]]; (split; [reflexivity|]); cbn; intros H;
+    - intros id Hid. cbn in Hid. destruct Hid as [<-|[<-|[<-|[]]]]; (split; [reflexivity|]); cbn; intros H;
         repeat (destruct H as [H|H]; [discriminate H|]); exact H.
-    - intros a b Ha Hb. cbn in Ha, Hb. destruct Ha as [<-|[<-|[]]], Hb as [<-|[<-|[]]]; try reflexivity; intros H; discriminate H.
+    - intros a b Ha Hb. cbn in Ha, Hb. destruct Ha as [<-|[<-|[<-|[]]]], Hb as [<-|[<-|[<-|[]]]]; try reflexivity; intros H; discriminate H.
     - cbn. repeat constructor; cbn; intuition discriminate.
     - intros id. unfold spell. repeat (destruct (_ =? _)%N); discriminate. }
   split.
-  { apply RDcomment; [reflexivity|]. apply RDinstr.
+  { apply RDcomment; [reflexivity|]. apply (RDorg spell org); [reflexivity|cbn; lia|]. apply RDinstr.
     - repeat split; reflexivity.
     - apply RDinstr.
       + split; [reflexivity|]. split; [|repeat split; cbn; lia].
         exists (s2t "Add"), (s2t "aB"). repeat split; try reflexivity; cbn; intuition discriminate.
       + apply RDinstr; [repeat split; try reflexivity; cbn; lia|apply RDnil]. }
-  split; [repeat constructor|]. split; [cbn; lia|]. split; vm_compute; reflexivity.
+  split; [repeat constructor|]. split; [repeat constructor|].
+  split; [split; [repeat split; reflexivity|split; [exact I|right; cbn; lia]]|].
+  split; [cbn; lia|]. split; vm_compute; reflexivity.
 Qed.
-Example conclusion : compile_warrior cfg94 source = COk code 0 (mkPM (s2t "demo") [] []).
+Example conclusion : compile_warrior cfg94 source = COk code 1 (mkPM (s2t "demo") [] []).
 Proof.
-  destruct hypotheses_hold as [H1 [H2 [H3 [H4 [H5 [H6 H7]]]]]].
-  exact (C03_labelled_tokens_partial cfg94 spell ils es 0%nat None None code 0%Z source H1 H2 H3 H4 H5 H6 H7).
+  destruct hypotheses_hold as [H1 [H2 [H3 [H4 [H5 [H6 [H7 [H8 H9]]]]]]]].
+  exact (C03_labelled_tokens_partial cfg94 spell (Some org) None [12%N] ils es (Some endl) 0%nat None None code 1%Z source H1 H2 H3 H4 H5 H6 H7 H8 H9).
 Qed.
 End C03Example.
 
 (* missing from C03_full_statement: EQU lines (substitution is proved token by token above, and its independence
-   of the order of definitions in C14), FOR blocks (C08), ;assert lines (C07), ORG / END (the entry point lemma
-   above), labels on the END line.  These, and the composition of all of them, are decided on every run by the
+   of the order of definitions in C14), FOR blocks (C08), ;assert lines (C07).  These, and the composition of all of them, are decided on every run by the
    two-stage correspondence: generated abstract programs are rendered under several styles by the extracted
    Render, assembled by gmars and by the extracted model, and compared with the extracted Meaning. *)
